@@ -241,6 +241,33 @@ func (h *orderHarness) Gen(r *Rand, tier string, clean bool) any {
 	if r.Chance(0.15) {
 		c.Order = append(c.Order, c.Order[0]) // repeated key, same direction
 	}
+	switch x := r.Intn(100); {
+	case x < 8:
+		// ties in the first key that only the second key resolves: one instant written in two zones (equal as sort
+		// keys whatever their text), several subjects and objects under it
+		var ts []TSpec
+		for _, si := range pickDistinct(r, V.NodesClean, 3) {
+			for _, pi := range []int{3, 8, 2} {
+				if r.Chance(0.75) {
+					ts = append(ts, TSpec{si, pi, []int{6, 7, 8, 12, 13}[r.Intn(5)]})
+				}
+			}
+		}
+		c.Graphs = []GraphData{{Name: "?g0", Ts: dedupSpecs(ts)}}
+		c.Q = &Query{From: []string{"?g0"}, Where: []QClause{{S: Tm{K: "b", B: "?s"}, P: Tm{K: "pa", ID: "p", B: "?t"}, O: Tm{K: "b", B: "?o"}}},
+			Proj: []Proj{{B: "?s"}, {B: "?t"}, {B: "?o"}}}
+		second := []string{"?s", "?o"}[r.Intn(2)]
+		c.Order = []Order{{B: "?t", Desc: r.Chance(0.3)}, {B: second, Desc: r.Chance(0.4)}}
+	case x < 16 && len(c.Q.Where) >= 1:
+		// GROUP BY lists its keys in another order than SELECT, ORDER BY follows the GROUP BY list
+		cl := QClause{S: Tm{K: "b", B: "?s"}, P: Tm{K: "b", B: "?p"}, O: Tm{K: "b", B: "?o"}}
+		c.Q = &Query{From: graphNames(c.Graphs), Where: []QClause{cl}, GroupBy: []string{"?o", "?s"},
+			Proj: []Proj{{B: "?s"}, {B: "?o"}, {B: "?p", As: "?n", Agg: "count"}}}
+		c.Order = []Order{{B: "?o", Asc: r.Bool()}}
+		if r.Bool() {
+			c.Order = append(c.Order, Order{B: "?s", Asc: r.Bool()})
+		}
+	}
 	c.Limits = []int{0, 1, 2, 3, 5, 50}
 	c.Bad = []string{`"-1"^^type:int64`, `"1.5"^^type:float64`, `"2"^^type:text`, `"true"^^type:bool`}
 	return c
